@@ -60,6 +60,21 @@ def run(ctx):
     for e in removes:
         loc = interface_loop(e)
         where = ctx.where(f, e.node)
+        # the list an interface is removed from must not be the list the enclosing loop walks: after a removal the next element
+        # slides into the freed slot and is never examined (two excluded interfaces in a row leave the second one in)
+        lp_ = e.loops()
+        if lp_ and e.recv is not None:
+            src = lp_[-1][2]
+            live = e.recv
+            for x in T.subterms(e.recv):
+                if x[0] == "lc" and isinstance(s.loop_init.get((x[1], x[2])), tuple):
+                    live = s.loop_init[(x[1], x[2])]
+            if src == live or (src[0] == "call" and src[1] == "enumerate" and src[2][0] == live):
+                ctx.violation("ITER", f"{f.qualname} / ITER / interfaces are removed from the list that is being walked", where,
+                              f"`{f.module.line(e.node.lineno)}` removes from the very list the enclosing loop iterates: the element after each removed "
+                              f"interface is skipped, so of two consecutive excluded interfaces the second keeps its column")
+                copies += 1
+                continue
         if loc is None:
             raise AnalysisError(f"{where}: removal is not inside a loop over the internal interfaces' id lists")
         pos, elem = loc
